@@ -410,8 +410,11 @@ func (w *bWorld) vexec(thread *starlark.Thread, fn *starlark.Builtin, args starl
 	}
 	content := strings.Join(parts, "|")
 	// some output on the target's stdout (exercises the line writer): two lines, split oddly
-	fmt.Fprintf(bStdout(thread), "run %s\npartial", name)
-	fmt.Fprintf(bStdout(thread), " line of %s", name)
+	// (the three writes split the two lines at odd places; the last line is unterminated)
+	for _, chunk := range []string{"run " + name + "\npar", "", "tial line of " + name} {
+		fmt.Fprint(bStdout(thread), chunk)
+		w.logEvent("Out", "l", name, "text", chunk)
+	}
 	w.mu.Lock()
 	failing := w.fail[name]
 	w.execLog = append(w.execLog, name)
